@@ -167,25 +167,40 @@ Print Assumptions C18_lcb_scale_invariant.
    the answer to a predict call is the pure function of the CURRENT floor and trees (no memo, no stale accumulator) *)
 Theorem C18_session_answer : forall s ops r,
   run s (ops ++ [OPredict r]) =
-  (fst (run s ops), snd (run s ops) ++ [predict r (fst (fst (run s ops))) (snd (fst (run s ops)))]).
+  (fst (run s ops), snd (run s ops) ++ [predict r (st_minv (fst (run s ops))) (st_trees (fst (run s ops)))]).
 Proof. exact session_answer. Qed.
 Print Assumptions C18_session_answer.
 
 Theorem C18_session_history_independent : forall s s' ops ops' r,
-  fst (run s ops) = fst (run s' ops') ->
+  st_minv (fst (run s ops)) = st_minv (fst (run s' ops')) ->
+  st_trees (fst (run s ops)) = st_trees (fst (run s' ops')) ->
   last (snd (run s (ops ++ [OPredict r]))) [] = last (snd (run s' (ops' ++ [OPredict r]))) [].
 Proof. exact session_history_independent. Qed.
 Print Assumptions C18_session_history_independent.
 
 Theorem C18_session_predict_pure : forall s r1 r2,
-  run s [OPredict r1; OPredict r2] = (s, [predict r1 (fst s) (snd s); predict r2 (fst s) (snd s)]).
+  run s [OPredict r1; OPredict r2] = (s, [predict r1 (st_minv s) (st_trees s); predict r2 (st_minv s) (st_trees s)]).
 Proof. exact session_predict_pure. Qed.
 Print Assumptions C18_session_predict_pure.
 
 Theorem C18_session_warm_start : forall s extra r,
-  snd (run s [OWarm extra; OPredict r]) = [predict r (fst s) (snd s ++ extra)].
+  snd (run s [OWarm extra; OPredict r]) = [predict r (st_minv s) (st_trees s ++ extra)].
 Proof. exact session_warm. Qed.
 Print Assumptions C18_session_warm_start.
+
+(* the hyper-parameter n_estimators and the fitted trees may disagree (warm-start protocol between set_params and the next
+   fit; estimators_ edited by hand): every answer is computed from the trees present - all set_params(n_estimators=...)
+   calls can be deleted from a session, and the initial value changed, without changing any answer *)
+Theorem C18_session_n_estimators_irrelevant : forall s n ops,
+  snd (run s ops) = snd (run (st_minv s, n, st_trees s) (strip_nest ops)).
+Proof. exact session_n_estimators_irrelevant. Qed.
+Print Assumptions C18_session_n_estimators_irrelevant.
+
+Theorem C18_session_hand_edited_estimators : forall s i extra r,
+  snd (run s [ODrop i; OSetNEst 0; OPredict r]) = [predict r (st_minv s) (drop_nth i (st_trees s))] /\
+  snd (run s [OMerge extra; OPredict r]) = [predict r (st_minv s) (st_trees s ++ extra)].
+Proof. exact session_drop_merge. Qed.
+Print Assumptions C18_session_hand_edited_estimators.
 
 (* warm start / any union of two groups of trees: mean and aleatoric part pool linearly, the epistemic part is the pooled
    within-group variance plus the between-group term (the law of total variance one level up) *)
@@ -199,7 +214,7 @@ Proof. exact pooling. Qed.
 Print Assumptions C18_warm_start_pooling.
 
 Example C18_example_session :
-  let s0 : state := (0, [(1, 16); (7, 16)]) in
+  let s0 : state := (0, 2%nat, [(1, 16); (7, 16)]) in
   snd (run s0 [OPredict Disentangled; OWarm [(4, 16)]; OPredict Plain; OSetMinVar (20#1); OPredict WithStd;
                ORefit [(2, 0)]; OPredict Disentangled; ORequery [(3, 1); (5, 1)]; OReorder [(5, 1); (3, 1)]; OPredict Disentangled])
   = [[mean3 0 [(1, 16); (7, 16)]; var_al 0 [(1, 16); (7, 16)]; var_ep 0 [(1, 16); (7, 16)]];
@@ -207,8 +222,12 @@ Example C18_example_session :
      [mean2 (20#1) [(1, 16); (7, 16); (4, 16)]; var_total (20#1) [(1, 16); (7, 16); (4, 16)]];
      [mean3 (20#1) [(2, 0)]; var_al (20#1) [(2, 0)]; var_ep (20#1) [(2, 0)]];
      [mean3 (20#1) [(5, 1); (3, 1)]; var_al (20#1) [(5, 1); (3, 1)]; var_ep (20#1) [(5, 1); (3, 1)]]]
-  /\ var_ep 0 [(1, 16); (7, 16); (4, 16)] == 6 /\ var_total (20#1) [(1, 16); (7, 16); (4, 16)] == 26.
-Proof. split; [reflexivity|]. vm_compute. split; reflexivity. Qed.
+  /\ var_ep 0 [(1, 16); (7, 16); (4, 16)] == 6 /\ var_total (20#1) [(1, 16); (7, 16); (4, 16)] == 26
+  (* hyper-parameter raised to 20 while 2 trees are fitted, then one tree dropped, then another forest merged in *)
+  /\ snd (run s0 [OSetNEst 20; OPredict Plain; ODrop 0; OPredict Plain; OMerge [(3, 0); (5, 0)]; OPredict Plain])
+     = [[mean1 [(1, 16); (7, 16)]]; [mean1 [(7, 16)]]; [mean1 [(7, 16); (3, 0); (5, 0)]]]
+  /\ mean1 [(1, 16); (7, 16)] == 4 /\ mean1 [(7, 16); (3, 0); (5, 0)] == 5.
+Proof. split; [reflexivity|]. vm_compute. repeat split; reflexivity. Qed.
 
 (* non-vacuity: three trees, one with a (rounding-)negative impurity; floor 1/4.
    mean 2, aleatoric (1/4 + 1/4 + 1)/3 = 1/2, epistemic ((1)^2 + 0 + 1^2)/3 = 2/3, total 7/6 *)
